@@ -11,7 +11,7 @@ from typing import Any, Dict, List, Optional, Sequence, Tuple
 
 from hypothesis import strategies as st
 
-from vlib import c20_gen, c20_parse, runner, sut
+from vlib import c20_gen, c20_parse, c20_unit, runner, sut
 from vlib.c20_gen import fragment_class
 from vlib.c20_parse import Diag
 
@@ -37,7 +37,13 @@ RULE = (
     "C# /// blocks parsed as XML fragments. A file that fails is re-generated from the same model with every fragment "
     "replaced by '~': still failing => structural defect (bucket by diagnostic and code line), else text-caused "
     "(bucket target:file:text-kind:fragment-class). Non-trivial = accepted model of which at least one marker was "
-    "found in a generated file of a target that succeeded; distinct by model text."
+    "found in a generated file of a target that succeeded; distinct by model text. FUNCTION LEVEL (vlib/c20_unit.py): "
+    "the Stripped -> Stripped functions that wrap a rendered description (python docstring and documentation_comment; "
+    "typescript, java, cpp, golang documentation_comment) are called directly with 6400 (thorough 600000) stripped texts of "
+    "1-3 lines made of plain words and the same fragment pools, half of them ending in an end fragment, lengths on both "
+    "sides of the one-line limit; each result is embedded where a comment ending early, late or never breaks the syntax "
+    "(class body before a statement; array literal; parenthesised initialiser; before a field whose presence is checked) "
+    "and parsed by ast / node / javac / g++ / the Go lexer. Non-trivial there = text with a terminator-like fragment."
 )
 ASSUMPTIONS = [
     "C# and Go: no compiler/parser is installed; the check is LEXICAL well-formedness only (comments, regular/verbatim/"
@@ -461,6 +467,27 @@ def shard(ctx: runner.Ctx) -> None:
     runner.hyp_run(cases(), one, n, ctx.seed)
     for k, v in notes.items():
         ctx.notes[k] = v
+    unit_stage(ctx)
+
+
+def unit_stage(ctx: runner.Ctx) -> None:
+    """Function level: the text -> comment/docstring functions of the targets on thousands of texts."""
+    collected = []  # type: List[str]
+    runner.hyp_run(c20_unit.texts(), collected.append, ctx.n(6_400, 600_000), ctx.seed + 11)
+    todo = list(dict.fromkeys(collected))
+    for k in range(0, len(todo), 200):
+        chunk = todo[k:k + 200]
+        root = sut.fresh_dir(ctx.scratch, "c20-unit")
+        try:
+            fails = c20_unit.check_batch(root, ctx.scratch, list(enumerate(chunk)))
+        finally:
+            shutil.rmtree(root, ignore_errors=True)
+        for text in chunk:
+            ctx.case(c20_unit.dangerous(text), key=["unit", text], sample={"unit_text": text},
+                     classes=["unit:text", "unit:one-line" if "\n" not in text else "unit:multi-line",
+                              "unit:shorter-than-64" if len(text) < 64 else "unit:64-or-longer"])
+        for idx, name, kind, msg in fails:
+            ctx.fail(f"{name}:{kind}", {"unit_text": chunk[idx]}, msg)
 
 
 def _sanitize(case: Any) -> Optional[Dict[str, Any]]:
@@ -483,6 +510,15 @@ def _sanitize(case: Any) -> Optional[Dict[str, Any]]:
 
 
 def replay(case: Any) -> List[Tuple[str, str]]:
+    if isinstance(case, dict) and isinstance(case.get("unit_text"), str):
+        text = case["unit_text"].strip()
+        if not text:
+            return []
+        base = runner.make_scratch("c20-replay")
+        try:
+            return [(f"{name}:{kind}", msg) for _, name, kind, msg in c20_unit.check_batch(base / "unit", base, [(0, text)])]
+        finally:
+            shutil.rmtree(base, ignore_errors=True)
     c = _sanitize(case)
     if c is None:
         return []
@@ -496,6 +532,11 @@ def replay(case: Any) -> List[Tuple[str, str]]:
 
 def shrink(case: Any, bucket: str, budget: float) -> Any:
     """Delete top-level entities (same line ranges in the text and its neutral twin), then single lines."""
+    if isinstance(case, dict) and isinstance(case.get("unit_text"), str):
+        from vlib import shrink as vshrink
+
+        return vshrink.jshrink(case, lambda c: isinstance(c, dict) and isinstance(c.get("unit_text"), str)
+                               and any(b == bucket for b, _ in replay(c)), budget)
     c = _sanitize(case)
     if c is None:
         return case
